@@ -7,7 +7,7 @@ import re
 
 import z3
 
-from .exec import (S, A, E, Ref, FnP, Native, UNIT, TRUE, FALSE, Fork, PanicResult, Inconclusive,
+from .exec import (S, A, E, Ref, FnP, Native, UNIT, TRUE, FALSE, Fork, PanicResult, Inconclusive, Multi,
                    bv, zbool, mask)
 
 SUMMARY_DOC = []
@@ -300,7 +300,7 @@ def s_minmax(ex, st, fr, text, args):
     return Fork([(lt, lambda s: b), (z3.Not(lt), lambda s: a)])
 
 
-@summary(r'^<u(8|16|32|64|size) as Ord>::cmp$', 'Ord::cmp on unsigned integers: Less / Equal / Greater')
+@summary(r'^<(u(8|16|32|64|size)|char) as Ord>::cmp$', 'Ord::cmp on unsigned integers: Less / Equal / Greater')
 def s_cmp(ex, st, fr, text, args):
     a = ex.deref(st, args[0])
     b = ex.deref(st, args[1])
@@ -464,3 +464,89 @@ def s_char_conv(ex, st, fr, text, args):
     else:
         good = z3.And(x <= 0x10FFFF, z3.Or(x < 0xD800, x > 0xDFFF))
     return Fork([(good, lambda s: E('Ok', (a,))), (z3.Not(good), lambda s: E('Err', (UNIT,)))])
+
+
+# ------------------------------------------------------------------------------------------------
+# higher-order: slice::binary_search_by (mirrors the probe sequence of the std implementation of
+# the toolchain: size/2 steps without early exit, final comparison at `base`)
+
+def call_closure(ex, st, clo, args):
+    """explore a closure call; -> list of (kind, state, value)"""
+    if isinstance(clo, Ref):
+        clo = ex.deref(st, clo)
+    if not isinstance(clo, FnP) or clo.fn is None:
+        raise Inconclusive('closure call on %r' % (clo,))
+    a = list(args)
+    if clo.kind == 'closure':
+        a = [ex.env_ref(st, clo)] + a
+    return ex.call_fn(st, clo.fn, a)
+
+
+@summary(r'^core::slice::<impl \[.*\]>::binary_search_by::<', 'slice::binary_search_by: the probe sequence of the std implementation (halving without early exit, final probe at base); the comparator is the real closure')
+def s_binary_search_by(ex, st, fr, text, args):
+    sl, clo = args
+    arr = ex.deref(st, sl)
+    if isinstance(arr, Native) and arr.tag == 'vec':
+        n = len(arr.p[0])
+    elif isinstance(arr, A):
+        n = len(arr.f)
+    else:
+        raise Inconclusive('binary_search_by over %r' % (arr,))
+    out = []
+    if n == 0:
+        return E('Err', (S(64, 0),))
+
+    def elem(i):
+        return Ref(sl.fid, sl.local, sl.path + (('i', i),))
+
+    def go(s, size, base):
+        if size > 1:
+            half = size // 2
+            mid = base + half
+            for kind, s2, v in call_closure(ex, s, clo, [elem(mid)]):
+                if kind != 'return':
+                    out.append((s2, PanicResult(str(v))))
+                    continue
+                go(s2, size - half, base if v.v == 'Greater' else mid)
+            return
+        for kind, s2, v in call_closure(ex, s, clo, [elem(base)]):
+            if kind != 'return':
+                out.append((s2, PanicResult(str(v))))
+            elif v.v == 'Equal':
+                out.append((s2, E('Ok', (S(64, base),))))
+            else:
+                out.append((s2, E('Err', (S(64, base + (1 if v.v == 'Less' else 0)),))))
+    go(st, n, 0)
+    return Multi(out)
+
+
+@summary(r'^(std::result::)?Result::<.*>::is_ok$', 'Result::is_ok')
+def s_is_ok(ex, st, fr, text, args):
+    v = ex.deref(st, args[0])
+    return S(1, int(v.v == 'Ok'))
+
+
+@summary(r'^(std::result::)?Result::<.*>::is_err$', 'Result::is_err')
+def s_is_err(ex, st, fr, text, args):
+    v = ex.deref(st, args[0])
+    return S(1, int(v.v == 'Err'))
+
+
+@summary(r'^<(std::vec::)?Vec<.*> as (std::default::)?Default>::default$', 'Default for Vec: empty')
+def s_default_vec(ex, st, fr, text, args):
+    return Native('vec', ((),))
+
+
+@summary(r'^<(u8|u16|u32|u64|usize|bool|char) as (std::default::)?Default>::default$', 'Default for integers / bool / char: zero')
+def s_default_int(ex, st, fr, text, args):
+    t = re.match(r'^<(\w+) as', text).group(1)
+    w = {'u8': 8, 'u16': 16, 'u32': 32, 'u64': 64, 'usize': 64, 'bool': 1, 'char': 32}[t]
+    return S(w, 0)
+
+
+@summary(r'^<S as (std::default::)?Default>::default$', 'Default::default of the generic user state: dispatched to the harness state type')
+def s_default_generic(ex, st, fr, text, args):
+    f = ex.prog.find('St', 'default')
+    if f is None:
+        raise Inconclusive('user state Default impl not found')
+    return ('tailcall', FnP(f.name, 'fn', f), [])
